@@ -14,6 +14,7 @@ pub open spec fn ends_in_nb_digits(v: Seq<char>, ds: Seq<char>) -> bool {
     && v.skip(v.len() - ds.len()) == ds
     && v.subrange(v.len() - ds.len() - 2, v.len() - ds.len()) == L_nb()
 }
+pub open spec fn ends_in_bare_nb(v: Seq<char>) -> bool { v.len() >= 2 && v.skip(v.len() - 2) == L_nb() }
 pub open spec fn has_nb(v: Seq<char>) -> bool { exists|j: int| 0 <= j && j + 2 <= v.len() && #[trigger] v[j] == 'n' && v[j + 1] == 'b' }
 
 impl PkgName {
